@@ -372,6 +372,7 @@ Record member := mk_member {
   m_canRead : bool; m_canWrite : bool;
   m_connected : bytes; m_expiresAt : bytes;       (* MarshalText of the two times fixed at admission *)
   m_userAgent : bytes; m_remoteAddr : bytes;
+  m_internal : bool;                              (* the relay's own stats reporter (F15 repair) *)
   m_tx : frames; m_rx : frames }.
 
 (* fpsFromNs after the F13 repair: a rate that is not finite is reported as 0 *)
@@ -420,22 +421,24 @@ Inductive direction := Tx | Rx.
 Inductive event :=
 | Register (m : member)                            (* hub.register <- client *)
 | Unregister (id : N) (topic : bytes)              (* hub.unregister <- client (the client knows its topic) *)
-| Broadcast (topic : bytes) (slow : list N)        (* a message on topic; the readers whose queue was full are evicted *)
+| Broadcast (topic : bytes) (slow : list N)        (* a message on topic; slow = the clients whose queue was full:
+                                                      they are evicted, except the relay's own reporter *)
 | Traffic (id : N) (dir : direction) (f : frames). (* readPump / writePump updated the accumulators of a client *)
 
 Definition set_frames (dir : direction) (f : frames) (m : member) : member :=
   match dir with
   | Tx => mk_member (m_id m) (m_topic m) (m_scopes m) (m_canRead m) (m_canWrite m) (m_connected m) (m_expiresAt m)
-                    (m_userAgent m) (m_remoteAddr m) f (m_rx m)
+                    (m_userAgent m) (m_remoteAddr m) (m_internal m) f (m_rx m)
   | Rx => mk_member (m_id m) (m_topic m) (m_scopes m) (m_canRead m) (m_canWrite m) (m_connected m) (m_expiresAt m)
-                    (m_userAgent m) (m_remoteAddr m) (m_tx m) f
+                    (m_userAgent m) (m_remoteAddr m) (m_internal m) (m_tx m) f
   end.
 
 Definition hub_step (h : hub) (e : event) : hub :=
   match e with
   | Register m => set_bucket (m_topic m) (m :: without (m_id m) (bucket (m_topic m) h)) h
   | Unregister id t => set_bucket t (without id (bucket t h)) h
-  | Broadcast t slow => set_bucket t (fold_left (fun b id => without id b) slow (bucket t h)) h
+  | Broadcast t slow =>
+    set_bucket t (filter (fun m => negb (existsb (N.eqb (m_id m)) slow && negb (m_internal m))) (bucket t h)) h
   | Traffic id dir f =>
     map (fun tb => (fst tb, map (fun m => if m_id m =? id then set_frames dir f m else m) (snd tb))) h
   end.
@@ -449,18 +452,7 @@ Definition get_stats (now : Z) (h : hub) : list report := map (report_of_member 
 
 (* ---- the property's reading of a history, independent of the topic map ---- *)
 
-(* is the connection [id] joined after the history (given newest event first)? *)
-Fixpoint present_rev (rev_evs : list event) (id : N) : bool :=
-  match rev_evs with
-  | [] => false
-  | Register m :: r => if m_id m =? id then true else present_rev r id
-  | Unregister i _ :: r => if i =? id then false else present_rev r id
-  | Broadcast _ slow :: r => if existsb (N.eqb id) slow then false else present_rev r id
-  | Traffic _ _ _ :: r => present_rev r id
-  end.
-Definition present (evs : list event) (id : N) : bool := present_rev (rev evs) id.
-
-(* the admission record of [id]: its most recent Register *)
+(* the admission record of [id]: its most recent Register (history given newest event first) *)
 Fixpoint joined_as_rev (rev_evs : list event) (id : N) : option member :=
   match rev_evs with
   | [] => None
@@ -469,9 +461,25 @@ Fixpoint joined_as_rev (rev_evs : list event) (id : N) : option member :=
   end.
 Definition joined_as (evs : list event) (id : N) : option member := joined_as_rev (rev evs) id.
 
+Definition internal_rev (rev_evs : list event) (id : N) : bool :=
+  match joined_as_rev rev_evs id with Some m => m_internal m | None => false end.
+
+(* is the connection [id] joined after the history (given newest event first)?  A full queue
+   evicts a client unless it is the relay's own reporter *)
+Fixpoint present_rev (rev_evs : list event) (id : N) : bool :=
+  match rev_evs with
+  | [] => false
+  | Register m :: r => if m_id m =? id then true else present_rev r id
+  | Unregister i _ :: r => if i =? id then false else present_rev r id
+  | Broadcast _ slow :: r => if existsb (N.eqb id) slow && negb (internal_rev r id) then false else present_rev r id
+  | Traffic _ _ _ :: r => present_rev r id
+  end.
+Definition present (evs : list event) (id : N) : bool := present_rev (rev evs) id.
+
 (* what a report says about who the client is (everything but the traffic figures) *)
 Definition identity (m : member) :=
-  (m_topic m, m_scopes m, m_canRead m, m_canWrite m, m_connected m, m_expiresAt m, m_userAgent m, m_remoteAddr m).
+  (m_topic m, m_scopes m, m_canRead m, m_canWrite m, m_connected m, m_expiresAt m, m_userAgent m, m_remoteAddr m,
+   m_internal m).
 
 (* histories the code can produce: a client pointer is registered once (serveWs makes a new
    Client per connection), and unregister / eviction name a client by its own topic *)
